@@ -2,6 +2,7 @@
 from __future__ import annotations
 
 import asyncio
+import sys
 import copy
 import random
 from collections import Counter, defaultdict
@@ -60,6 +61,8 @@ class RecSource(ScheduleSource):
             raise SourceBoom(f"source {self.idx} call {n}")
         listed = list(self.items)
         self.rec.add("poll_ok", src=self.idx, n=n, ids=[s.schedule_id for s in listed])
+        if self.spec.get("by_ref"):
+            return self.items  # a simple source hands out its own list (and edits it in post_send)
         return listed
 
     def pre_send(self, task: ScheduledTask) -> Any:
@@ -87,7 +90,12 @@ class RecSource(ScheduleSource):
     def _post(self, task: ScheduledTask) -> None:
         self.rec.add("post_send", src=self.idx, sid=task.schedule_id)
         if task.time is not None and task.cron is None:
-            self.items = [s for s in self.items if s.schedule_id != task.schedule_id]
+            if self.spec.get("by_ref"):
+                for s_ in list(self.items):
+                    if s_.schedule_id == task.schedule_id:
+                        self.items.remove(s_)
+            else:
+                self.items = [s for s in self.items if s.schedule_id != task.schedule_id]
 
 
 class RecBroker(AsyncBroker):
@@ -184,7 +192,12 @@ def gen_c15_spec(rng: random.Random, minutes_max: int) -> Dict[str, Any]:
             sid += 1
         npolls = minutes + 2
         src: Dict[str, Any] = {"items": items, "lat": rng.choice([0, 0, 0.001, 0.2, 0.9]), "post_async": rng.random() < 0.3,
-                               "pre_async": rng.random() < 0.3}
+                               "pre_async": rng.random() < 0.3, "by_ref": rng.random() < 0.3}
+        if src["by_ref"]:
+            # (what such a source "listed" is whatever its list holds when the scheduler reads it: no edits between polls)
+            for it_ in items:
+                it_["add_at"] = 0.0
+                it_.pop("remove_at", None)
         if rng.random() < 0.3:
             src["fail_calls"] = sorted(rng.sample(range(npolls), rng.randint(1, min(3, npolls))))
             src["fail_exc"] = [rng.choice(["SourceBoom", "TimeoutError", "ConnectionError", "KeyError"]) for _ in range(3)]
@@ -205,6 +218,8 @@ def gen_c15_spec(rng: random.Random, minutes_max: int) -> Dict[str, Any]:
     elif r < 0.35:
         spec["via_cli"] = True
         spec["skip_first_run"] = rng.random() < 0.5
+    if rng.random() < 0.3:
+        spec["sleep_overshoot"] = rng.choice([0.01, 0.05, 0.2, 0.3])
     return spec
 
 
@@ -293,11 +308,29 @@ def run_c15(spec: Dict[str, Any]) -> "tuple[Rec, Dict[str, Any]]":
             t.cancel()
 
     S.set_host_tz(spec.get("host_tz"))  # the machine's local zone: the loop reads the naive local clock
+    real_asyncio = run_mod.asyncio
+    if spec.get("sleep_overshoot"):
+        # a real event loop wakes a sleeper a little late: the loop's own end-of-tick sleep returns `overshoot` seconds
+        # after the requested instant (the delayed sends are left exact, they have their own 1 s allowance)
+        over = float(spec["sleep_overshoot"])
+
+        class _AsyncioProxy:
+            def __getattr__(self, name: str) -> Any:
+                return getattr(real_asyncio, name)
+
+            @staticmethod
+            async def sleep(delay: float, result: Any = None) -> Any:
+                if sys._getframe(1).f_code.co_name == "run_scheduler_loop":
+                    delay = max(0.0, delay) + over
+                return await real_asyncio.sleep(delay, result)
+
+        run_mod.asyncio = _AsyncioProxy()  # type: ignore[attr-defined]
     try:
         run_virtual(main, step_budget=3_000_000)
     except VirtualDeadlock as exc:
         info["loop_exc"] = f"deadlock {exc}"
     finally:
+        run_mod.asyncio = real_asyncio  # type: ignore[attr-defined]
         S.Clock.source = None
         S.set_host_tz(None)
     return rec, info
